@@ -695,36 +695,47 @@ func DependencyGraphThread() {
 
 func MakeTracesDependancyGraph(startEpoch int64, endEpoch int64, myid int64) map[string]map[string]int {
 
-	requestBody := map[string]interface{}{
-		"indexName":     "traces",
-		"startEpoch":    startEpoch,
-		"endEpoch":      endEpoch,
-		"searchText":    "*",
-		"queryLanguage": "Splunk QL",
-	}
-	requestBodyJSON, err := json.Marshal(requestBody)
-	if err != nil {
-		fmt.Printf("MakeTracesDependancyGraph: Error marshaling request body=%v, Error=%v", requestBody, err)
-		return nil
-	}
-	ctx := &fasthttp.RequestCtx{}
-	ctx.Request.SetBody(requestBodyJSON)
+	// page through all spans of the period: a search without from/size only returns the first 100 records
+	allSpans := make([]*structs.Span, 0)
+	const pageSize = 1000
+	for from := 0; ; from += pageSize {
+		requestBody := map[string]interface{}{
+			"indexName":     "traces",
+			"startEpoch":    startEpoch,
+			"endEpoch":      endEpoch,
+			"searchText":    "*",
+			"queryLanguage": "Splunk QL",
+			"from":          from,
+			"size":          pageSize,
+		}
+		requestBodyJSON, err := json.Marshal(requestBody)
+		if err != nil {
+			fmt.Printf("MakeTracesDependancyGraph: Error marshaling request body=%v, Error=%v", requestBody, err)
+			return nil
+		}
+		ctx := &fasthttp.RequestCtx{}
+		ctx.Request.SetBody(requestBodyJSON)
 
-	ctx.Request.Header.SetMethod("POST")
-	pipesearch.ProcessPipeSearchRequest(ctx, myid)
+		ctx.Request.Header.SetMethod("POST")
+		pipesearch.ProcessPipeSearchRequest(ctx, myid)
 
-	rawSpanData := structs.RawSpanData{}
-	if err := json.Unmarshal(ctx.Response.Body(), &rawSpanData); err != nil {
-		log.Errorf("MakeTracesDependancyGraph: could not unmarshal json body, err=%v", err)
-		return nil
+		rawSpanData := structs.RawSpanData{}
+		if err := json.Unmarshal(ctx.Response.Body(), &rawSpanData); err != nil {
+			log.Errorf("MakeTracesDependancyGraph: could not unmarshal json body, err=%v", err)
+			return nil
+		}
+		if len(rawSpanData.Hits.Spans) == 0 {
+			break
+		}
+		allSpans = append(allSpans, rawSpanData.Hits.Spans...)
 	}
 	spanIdToServiceName := make(map[string]string)
 	dependencyMatrix := make(map[string]map[string]int)
 
-	for _, span := range rawSpanData.Hits.Spans {
+	for _, span := range allSpans {
 		spanIdToServiceName[span.SpanID] = span.Service
 	}
-	for _, span := range rawSpanData.Hits.Spans {
+	for _, span := range allSpans {
 		if span.ParentSpanID == "" {
 			continue
 		}
